@@ -29,13 +29,13 @@ package atree
 //@ func (a *ArrayMetaDataSlab) ChildStorables() (r)  serves C09 C20
 //@   ensures len(r) == len(a.childrenHeaders) && (forall k :: 0 <= k && k < len(r) ==> r[k] == iface(SlabIDStorable(a.childrenHeaders[k].slabID)))
 //@   modifies alloc
-//@   loop 1: invariant 0 <= i && i <= len(a.childrenHeaders) && len(childIDs) == len(a.childrenHeaders) &&
+//@   loop 1: invariant len(parentOf) == refsEnumerated - old(refsEnumerated) && 0 <= i && i <= len(a.childrenHeaders) && len(childIDs) == len(a.childrenHeaders) &&
 //@        (forall k :: 0 <= k && k < i ==> childIDs[k] == iface(SlabIDStorable(a.childrenHeaders[k].slabID)))
 
 //@ func (m *MapMetaDataSlab) ChildStorables() (r)  serves C09 C20
 //@   ensures len(r) == len(m.childrenHeaders) && (forall k :: 0 <= k && k < len(r) ==> r[k] == iface(SlabIDStorable(m.childrenHeaders[k].slabID)))
 //@   modifies alloc
-//@   loop 1: invariant 0 <= i && i <= len(m.childrenHeaders) && len(childIDs) == len(m.childrenHeaders) &&
+//@   loop 1: invariant len(parentOf) == refsEnumerated - old(refsEnumerated) && 0 <= i && i <= len(m.childrenHeaders) && len(childIDs) == len(m.childrenHeaders) &&
 //@        (forall k :: 0 <= k && k < i ==> childIDs[k] == iface(SlabIDStorable(m.childrenHeaders[k].slabID)))
 
 //@ # one element contributes: its key and value (single element), the reference to its slab (external group), or the contributions of
@@ -52,8 +52,8 @@ package atree
 //@   requires is(elems, *singleElements) ==> (forall k :: 0 <= k && k < len(as(elems, *singleElements).elems) ==> as(elems, *singleElements).elems[k] != nil)
 //@   ensures len(r) >= len(childStorables) && (forall k :: 0 <= k && k < len(childStorables) ==> r[k] == childStorables[k])
 //@   modifies alloc
-//@   loop 1: invariant 0 <= i && len(childStorables) >= len(old(childStorables)) && (forall k :: 0 <= k && k < len(old(childStorables)) ==> childStorables[k] == old(childStorables)[k])
-//@   loop 2: invariant 0 <= i && len(childStorables) >= len(old(childStorables)) && (forall k :: 0 <= k && k < len(old(childStorables)) ==> childStorables[k] == old(childStorables)[k])
+//@   loop 1: invariant len(parentOf) == refsEnumerated - old(refsEnumerated) && 0 <= i && len(childStorables) >= len(old(childStorables)) && (forall k :: 0 <= k && k < len(old(childStorables)) ==> childStorables[k] == old(childStorables)[k])
+//@   loop 2: invariant len(parentOf) == refsEnumerated - old(refsEnumerated) && 0 <= i && len(childStorables) >= len(old(childStorables)) && (forall k :: 0 <= k && k < len(old(childStorables)) ==> childStorables[k] == old(childStorables)[k])
 
 //@ # ---------------------------------------------------------------- storage_health_check.go: CheckStorageHealth (C20)
 //@ # Exit-state assertions over the checker's own tables (parentOf: reference -> referencing slab; slabs: everything iterated;
@@ -61,7 +61,7 @@ package atree
 //@ # ChildStorables (above). Counting arguments (every slab visited, no slab referenced twice) are not expressed here.
 
 //@ functype SlabIterator() (id, slab)
-//@   ensures id != SlabIDUndefined ==> slab != nil
+//@   ensures id != SlabIDUndefined ==> slab != nil && !is(slab, SlabIDStorable)
 //@   pure
 
 //@ iface SlabStorage.SlabIterator() (it, err)
@@ -77,16 +77,18 @@ package atree
 //@   exit err == nil ==> (forall x SlabID :: has(visited, x) && has(parentOf, x) ==> ownerOf(x) == ownerOf(parentOf[x]))
 //@   exit err == nil ==> (forall x SlabID :: has(rootsMap, x) ==> has(slabs, x) && !has(parentOf, x))
 //@   exit err == nil ==> r == rootsMap && (expectedNumberOfRootSlabs >= 0 ==> len(rootsMap) == expectedNumberOfRootSlabs)
+//@   # no slab is referenced twice: the number of distinct referenced slabs equals the number of references enumerated
+//@   exit err == nil ==> len(parentOf) == refsEnumerated - old(refsEnumerated)
 //@   ensures err != nil ==> len(r) == 0
-//@   modifies alloc
-//@   loop 1: invariant (forall x SlabID :: has(parentOf, x) ==> has(slabs, parentOf[x])) && (forall k :: 0 <= k && k < len(leaves) ==> has(slabs, leaves[k])) && slabIterator != nil
-//@   loop 2: invariant (forall x SlabID :: has(parentOf, x) ==> has(slabs, parentOf[x])) && (forall k :: 0 <= k && k < len(leaves) ==> has(slabs, leaves[k])) && has(slabs, id) && slabIterator != nil
-//@   loop 3: invariant (forall x SlabID :: has(parentOf, x) ==> has(slabs, parentOf[x])) && (forall k :: 0 <= k && k < len(leaves) ==> has(slabs, leaves[k])) && has(slabs, id) && slabIterator != nil
-//@   loop 4: invariant (forall x SlabID :: has(parentOf, x) ==> has(slabs, parentOf[x])) && (forall k :: 0 <= k && k < len(leaves) ==> has(slabs, leaves[k])) &&
+//@   modifies ghost.refsEnumerated, alloc
+//@   loop 1: invariant len(parentOf) == refsEnumerated - old(refsEnumerated) && (forall x SlabID :: has(parentOf, x) ==> has(slabs, parentOf[x])) && (forall k :: 0 <= k && k < len(leaves) ==> has(slabs, leaves[k])) && slabIterator != nil
+//@   loop 2: invariant len(parentOf) == refsEnumerated - old(refsEnumerated) && (forall x SlabID :: has(parentOf, x) ==> has(slabs, parentOf[x])) && (forall k :: 0 <= k && k < len(leaves) ==> has(slabs, leaves[k])) && has(slabs, id) && slabIterator != nil
+//@   loop 3: invariant len(parentOf) == refsEnumerated - old(refsEnumerated) && (forall x SlabID :: has(parentOf, x) ==> has(slabs, parentOf[x])) && (forall k :: 0 <= k && k < len(leaves) ==> has(slabs, leaves[k])) && has(slabs, id) && slabIterator != nil
+//@   loop 4: invariant len(parentOf) == refsEnumerated - old(refsEnumerated) && (forall x SlabID :: has(parentOf, x) ==> has(slabs, parentOf[x])) && (forall k :: 0 <= k && k < len(leaves) ==> has(slabs, leaves[k])) &&
 //@        (forall x SlabID :: has(seen, x) ==> has(slabs, x))
-//@   loop 5: invariant (forall x SlabID :: has(parentOf, x) ==> has(slabs, x) && has(slabs, parentOf[x])) && (forall k :: 0 <= k && k < len(leaves) ==> has(slabs, leaves[k])) &&
+//@   loop 5: invariant len(parentOf) == refsEnumerated - old(refsEnumerated) && (forall x SlabID :: has(parentOf, x) ==> has(slabs, x) && has(slabs, parentOf[x])) && (forall k :: 0 <= k && k < len(leaves) ==> has(slabs, leaves[k])) &&
 //@        (forall x SlabID :: has(visited, x) ==> has(slabs, x)) && (forall x SlabID :: has(visited, x) && has(parentOf, x) ==> ownerOf(x) == ownerOf(parentOf[x])) &&
 //@        (forall x SlabID :: has(rootsMap, x) ==> has(slabs, x) && !has(parentOf, x))
-//@   loop 6: invariant (forall x SlabID :: has(parentOf, x) ==> has(slabs, x) && has(slabs, parentOf[x])) && (forall k :: 0 <= k && k < len(leaves) ==> has(slabs, leaves[k])) &&
+//@   loop 6: invariant len(parentOf) == refsEnumerated - old(refsEnumerated) && (forall x SlabID :: has(parentOf, x) ==> has(slabs, x) && has(slabs, parentOf[x])) && (forall k :: 0 <= k && k < len(leaves) ==> has(slabs, leaves[k])) &&
 //@        (forall x SlabID :: has(visited, x) ==> has(slabs, x)) && (forall x SlabID :: has(visited, x) && x != id && has(parentOf, x) ==> ownerOf(x) == ownerOf(parentOf[x])) &&
 //@        (forall x SlabID :: has(rootsMap, x) ==> has(slabs, x) && !has(parentOf, x)) && has(visited, id)
